@@ -1,4 +1,5 @@
 import Dcg.Proofs.Types
+import Dcg.Proofs.Rename
 /-
 C13 — type annotations are well-formed and mean the same in every spelling.
 Only property theorems live here; helper lemmas are in Dcg/Proofs/Types.lean.
@@ -31,6 +32,11 @@ theorem typeHint_eq_print_typing (o : Opts) (ho : o.unionOp = false) (t : DT) (h
 
 example : wfTree (.mk { isOptional := true } none [.mk { literals := [lit "'a b'", lit "1"] } none [], leaf "int" true, leaf "None"]) = true := by
   decide
+
+/-- … and unambiguously so: two different well-formed expressions never print to the same text
+(the printer is injective on expressions with plain names; no `|`). -/
+theorem hint_unambiguous (e e' : TExpr) (h : wfU e = true) (h' : wfU e' = true) (hp : print e = print e') : e = e' :=
+  print_inj e h e' h' hp
 
 /-! ### Balanced brackets -/
 
@@ -158,6 +164,29 @@ theorem union_of_none_is_not_an_expression :
 /-- FULL STATEMENT (kept visible; false of the code): all eight spellings denote the same type. -/
 def SpellingInvariant : Prop :=
   ∀ (t : DT), wfTree t = true → ∀ o o' : Opts, (denote (hintE o t).1).show = (denote (hintE o' t).1).show
+
+/-- PARTIAL — the typing / builtin / abstract-collection half of the claim, without the union
+operator: for every tree whose names are plain (`wfTree`) and are not themselves one of the nine
+container names (`freeTree`, decidable), any two of the four spellings `List|list|Sequence…` give
+texts that are the printed forms of expressions with the SAME denotation. By structural induction:
+the rendering under `o'` is the rendering under `o` with the three container names mapped
+(`hintE_ren`; the string-level de-duplication and change tests transfer because the printer is
+injective), and the mapping stays inside each container class (`denote_ren`). -/
+theorem spelling_invariant_collections (o o' : Opts) (ho : o.unionOp = false) (ho' : o'.unionOp = false) (t : DT)
+    (hw : wfTree t = true) (hf : freeTree t = true) :
+    (typeHint o t).1 = print (hintE o t).1 ∧ (typeHint o' t).1 = print (hintE o' t).1 ∧
+    denote (hintE o' t).1 = denote (hintE o t).1 :=
+  ⟨(typeHint_eq_print_typing o ho t hw).1, (typeHint_eq_print_typing o' ho' t hw).1,
+   denote_hintE_collections o o' ho ho' t hw hf⟩
+
+/-- non-vacuity: `Optional[Dict[str, List[Union[Set[int], Literal['a'], None]]]]` -/
+example :
+    let t : DT := .mk { isOptional := true, isDict := true } none
+      [.mk { isList := true } none [.mk { isSet := true } none [leaf "int"], .mk { literals := [lit "'a'"] } none [], leaf "None"]]
+    wfTree t = true ∧ freeTree t = true ∧
+    (typeHint typingO t).1 = lit "Optional[Dict[str, Optional[List[Union[Set[int], Literal['a']]]]]]" ∧
+    (typeHint { stdColl := true, genericCont := true } t).1 = lit "Optional[Mapping[str, Optional[Sequence[Union[FrozenSet[int], Literal['a']]]]]]" := by
+  decide
 
 /-- REFUTATION (known finding C13-F4), names plain: a union node that is itself the list, with an
 optional member (`items: [{"type": ["integer","null"]}, {"type":"string"}]`): the `|` spelling moves
